@@ -174,6 +174,10 @@ pub enum Policy {
   RandomWalk,
   /// random priorities with `depth - 1` priority change points
   Pct(u32),
+  /// random walk, except that one victim thread is parked at one of its yield points for a long
+  /// stretch (tens to thousands of steps of the others) and then resumed at once, wherever the
+  /// others happen to be (a caller preempted between two critical sections for a long time)
+  Park,
   /// replay: the recorded choice at every decision point (>= 2 runnable threads)
   Fixed(Vec<u8>),
   /// no baton: all threads are released at once and the operating system schedules them
@@ -188,6 +192,7 @@ impl Policy {
       Policy::RoundRobin => "rr".to_string(),
       Policy::RandomWalk => "rw".to_string(),
       Policy::Pct(d) => format!("pct{}", d),
+      Policy::Park => "park".to_string(),
       Policy::Fixed(_) => "fixed".to_string(),
       Policy::Os => "os".to_string(),
     }
@@ -243,6 +248,10 @@ pub struct St {
   fixed_pos: usize,
   pub diverged: bool,
   pct_change: Vec<u64>,
+  /// Policy::Park: (victim thread, step at which it is parked, steps of the others it sits out)
+  park_plan: (usize, u64, u64),
+  park_state: u8,
+  park_since: u64,
   trace: Vec<u8>,
   /// who was at a yield point when each decision was taken: (thread, its operation index)
   trace_owner: Vec<(u8, u32)>,
@@ -472,6 +481,29 @@ impl St {
         }
       }
       Policy::RandomWalk | Policy::Os => cands[self.rng.below(cands.len() as u64) as usize],
+      Policy::Park => {
+        let step = self.step;
+        let (victim, park_at, hold) = self.park_plan;
+        if self.park_state == 0 && step >= park_at && cur == victim && cur_ok {
+          self.park_state = 1;
+          self.park_since = step;
+        }
+        if self.park_state == 1 {
+          let others: Vec<usize> = cands.iter().cloned().filter(|c| *c != victim).collect();
+          if others.is_empty() || step.saturating_sub(self.park_since) >= hold {
+            self.park_state = 2;
+            if cands.contains(&victim) {
+              victim
+            } else {
+              cands[self.rng.below(cands.len() as u64) as usize]
+            }
+          } else {
+            others[self.rng.below(others.len() as u64) as usize]
+          }
+        } else {
+          cands[self.rng.below(cands.len() as u64) as usize]
+        }
+      }
       Policy::Pct(_) => {
         let step = self.step;
         let due = self.pct_change.iter().filter(|c| **c <= step).count();
@@ -779,6 +811,7 @@ impl Sim {
       }
     }
     let os_policy = matches!(policy, Policy::Os);
+    let park_plan = (rng.below(nthreads as u64) as usize, rng.below(est_steps.max(8)), *rng.pick(&[20u64, 100, 400, 1500, 5000]));
     let st = St {
       threads,
       current: usize::MAX,
@@ -790,6 +823,9 @@ impl Sim {
       fixed_pos: 0,
       diverged: false,
       pct_change,
+      park_plan,
+      park_state: 0,
+      park_since: 0,
       trace: Vec::new(),
       trace_owner: Vec::new(),
       log_hash: FNV0,
